@@ -38,6 +38,21 @@ CLAIMED = {
     note='Trusted: clang front end, vf/irsym.py (its handling of fadd/fsub/fmul/fdiv/__divdc3/sqrt-of-declared-square/cabs comparisons), z3, oracle/vnaconv_rel.py transcribed from vnaconv(3); '
          'every divisor met is assumed non-zero (away from the singular set).',
     design='DESIGN.md section 4 / C04', cmd='python3-vt ./check C04'),
+ 'C18': dict(
+    technique='bounded symbolic data-flow check with CBMC 6.11 (clang-14 IR -> ll2c in uninterpreted-function float mode) of the real weight computation on hand-built multi-system solve states',
+    text='Bounded proof with CBMC for ONE deterministic clause of C18: _vnacal_new_solve_calc_weights attaches to every equation, in the system-major order in which solve_simple / solve_auto / calc_pvalue walk '
+         'them, the weight 1/sqrt(nf^2 + tr^2 |m|^2) of THAT equation\'s own measurement cell, for two column systems holding 0..3 equations each and all measured values / noise parameters (floating products '
+         'uninterpreted: a bit-exact data-flow identity).  The statistical clauses (rejection rates, outlier power, unbiasedness, V-matrix convergence) are outside: no solver statement corresponds to a rate.',
+    note='Trusted: clang, ll2c (uf mode), CBMC, the hand-built solve state in harness/C18_weights.c.  The consumers\' indexing (global equation index) was aligned by the fix and is checked by reading only.',
+    design='DESIGN.md section 4 / C18'),
+ 'C20': dict(
+    technique='bounded symbolic execution with CBMC 6.11 (clang-14 IR -> ll2c) of the real add / solve / add_calibration code of 1-port calibrations with numeric kernels stubbed',
+    text='Bounded proof with CBMC on the real vnacal_new code for 1-port T8 / U8 calibrations with 1..2 frequencies and symbolic measurements: with 0, 1 or 2 of the three needed single-reflect standards '
+         'vnacal_new_solve fails with EDOM (one callback) and installs nothing; after the missing standards are added the repeated solve succeeds, vnacal_add_calibration returns the index find honours, and '
+         'vnacal_new_free + vnacal_free leave nothing allocated; the least-squares kernel is never called with fewer rows than unknowns.  Numeric kernels are stubs reporting full rank: nothing is claimed about '
+         'numerical rank decisions, larger calibrations or arbitrary standard subsets.',
+    note='Trusted: clang, ll2c, CBMC, kernel stubs (_vnacommon_qrsolve*, mldivide, mrdivide, minverse, qr), insque/remque/qsort models, vnaproperty_delete/copy stubs.',
+    design='DESIGN.md section 4 / C20'),
  'C19': dict(
     technique='symbolic interpretation of the real LU / mldivide / mrdivide / minverse (clang-14 IR -> vf/irsym.py) with z3 deciding A X = B, X A = B, A X = I, det and the pivot rule on every feasible pivot path; numeric replay on the gcc-compiled kernel',
     text='Exact algebraic proof per pivot path: for n = 1..2 (3 in thorough) with every matrix entry a free complex symbol, on EVERY feasible outcome of the pivot comparisons, '
